@@ -20,22 +20,26 @@ from the wheel.
 
 ## The timing wheel as a parameter (library `RussellLuo/timingwheel@54845bda3108`, read, not verified)
 
-`add(t)` puts a timer whose expiration `e` satisfies `e ≥ currentTime + tick` into the bucket with
-expiration `e - e % tick` (possibly via overflow wheels, which re-insert it when their own bucket
-expires) and otherwise answers "already expired", in which case `addOrRun` starts `go t.task()` at
-once; `currentTime` is the truncated expiration of the last flushed bucket, so `currentTime ≤ now`.
-The delay queue hands out a bucket only when `now ≥ bucket expiration`.  Consequence, and the only
-thing this model assumes about the wheel:
+The library is *read* as follows: `add(t)` puts a timer whose expiration `e` satisfies
+`e ≥ currentTime + tick` into the bucket with expiration `e - e % tick` (possibly via overflow wheels)
+and otherwise starts `go t.task()` at once.  It was first assumed that `currentTime ≤ now`, hence that a
+timer leaves the wheel at some `t ≥ e - e % tick`.  **That assumption is false**: when a bucket that has
+been popped from the delay queue is re-armed for the next lap before the wheel's loop has flushed it,
+`advanceClock(b.Expiration())` moves the wheel's clock a lap ahead and every timer of the bucket is run
+up to a whole lap early (reproduced on the real code under CPU load: a firing 92 ms before its due time
+with tick 10 ms; `MV.Findings.C08.wheel_early_handout`).  The repository was repaired instead
+(`fix:` "a task is not run before its due time": `schedulerTask.Next(prev)`, which the timer's closure
+calls first with the expiration of the run that is starting, sleeps until `prev`), and the model now
+assumes about the wheel only this:
 
-  a timer with expiration `e` is taken out of the wheel (its goroutine `go t.task()` is started) at
-  some time `t` with `e - e % tick ≤ t`  (`Sched.due`), and only while the wheel runs
-  (`Start()` … `Stop()`); `Timer.Stop()` removes a timer that is still in a bucket and does nothing
-  to one whose goroutine has already been started.
+  a pending timer may be taken out of the wheel (`expire i`: its goroutine `go t.task()` is started)
+  at ANY time while the wheel runs (`Start()` … `Stop()`); `Timer.Stop()` removes a timer that is
+  still in a bucket and does nothing to one whose goroutine has already been started.
 
-So a timer may run up to (but excluding) one tick before its expiration; there is no upper bound
-(late is always possible).  Events `expire i` (bucket flushed: timer `i` leaves the wheel, goroutine
-started) and `run i` (the goroutine executes `t.task()`: `Next`, re-add, `caller`) are separate steps
-so that a `close()` may fall between them, as in the real code.
+`run i` (the goroutine executes `t.task()`: `Next` — which waits until `e ≤ now` —, re-add, `caller`)
+is a separate step so that a `close()` may fall between hand-out and run, as in the real code.  A firing
+is therefore never early (`time.Sleep` returns after at least its argument); there is no upper bound
+(late is always possible).
 
 Not modelled: `SetExecutor`/`separate` (nobody in the repository sets an executor; `Clear` resetting it
 is therefore invisible), `RegisterImmediateCronTask`/`RegisterDayMomentTask`'s immediate synchronous
@@ -210,8 +214,6 @@ def caller (s : Sched) (i e : Nat) : Sched :=
 def timerTask (s : Sched) (i e : Nat) : Sched :=
   caller { s with objs := upd s.objs i ((s.objs i).fire e) } i e
 
-/-- the library bound: a timer with expiration `e` may leave the wheel at time `now` -/
-def due (tick e now : Nat) : Bool := decide (e - e % tick ≤ now)
 
 /-! ## Events -/
 
@@ -228,20 +230,25 @@ inductive Ev where
 
 def advance (s : Sched) (dt : Nat) : Sched := { s with now := s.now + dt }
 
-/-- the wheel flushes the bucket of timer `i`: the timer leaves the wheel, `go t.task()` is started -/
+/-- the wheel hands out timer `i` (bucket flushed, `go t.task()` started). No assumption is made about
+    *when*: the library can do this a whole lap before the expiration (a bucket re-armed for the next
+    lap while its flush is pending moves the wheel's clock ahead) — observed on the real code under
+    CPU load, see `MV.Findings.C08`. -/
 def expire (s : Sched) (i : Nat) : Sched :=
   if s.stopped then s else
   match (s.objs i).timer with
   | .pending e =>
-    if i < s.nobjs ∧ due s.tick e s.now then
+    if i < s.nobjs then
       { s with objs := upd s.objs i { s.objs i with timer := .inflight e } }
     else s
   | _ => s
 
-/-- the goroutine of timer `i` executes `t.task()` -/
+/-- the goroutine of timer `i` executes `t.task()`. Its first action is `Next(t.expiration)`, which
+    (since the `fix:` commit "a task is not run before its due time") sleeps until that expiration has
+    come: the step is enabled only when `e ≤ now` (`time.Sleep` returns after at least its argument). -/
 def runTimer (s : Sched) (i : Nat) : Sched :=
   match (s.objs i).timer with
-  | .inflight e => if i < s.nobjs then timerTask s i e else s
+  | .inflight e => if i < s.nobjs ∧ e ≤ s.now then timerTask s i e else s
   | _ => s
 
 /-- one step; events whose precondition does not hold leave the state unchanged -/
